@@ -144,6 +144,7 @@ var lexical = []string{
 	"a AND b", "a Or b", "1 DIV 2", "a Mod b", "AND", "a/AND", "AND and Or", "DIV div Mod", "a and b OR c", "Div(1)", "a aNd b",
 	"a and b", "a or b", "a and", "and a", "a andb", "aand b", "a and and", "a div b", "a mod b", "a div", "div", "1 div 2", "1div 2", "1 div2", "1div2", "(1)div(2)", "1 mod(2)", "a=b", "a!=b", "a!b", "a=!b", "a==b", "a<b", "a<=b", "a=<b", "a>b", "a>=b", "a=>b", "a<>b", "a<<b", "a< =b", "a! =b", "1<2<3", "1=2=3", "a+b", "a+", "+a", "a++b", "1+-1", "1-+1", "a,b", ",", "a,", "(a,b)",
 	"é", "éa", "aé", "·a", "a·", "a\u0300", "\u0300a", "a\u203f", "\u203fa", "a\u00d7", "\u00d7", "a\u00f7b", "\u037e", "a\u037e", "\u2000a", "a\u2000", "\u3000", "a\u3000b", "\ufffe", "a\ufffe", "\U000effff", "\U000f0000", "a\U000f0000", "日本:語", "p:日本", "日本:*",
+	"1234567890123456789012345678901234567890123456789012345678901234567890123456789012345678901234567890123456789012345678901234567890123456789012345678901234567890123456789012345678901234567890123456789012345678901234567890123456789012345678901234567890123456789012345678901234567890123456789012345678901234567890123456789012345678901234567890123456789012345678901234567890123456789012345678901234567890 > 1", "9999999999999999999999999999999999999999999999999999999999999999999999999999999999999999999999999999999999999999999999999999999999999999999999999999999999999999999999999999999999999999999999999999999999999999999999999999999999999999999999999999999999999999999999999999999999999999999999999999999999999999999999", "0.00000000000000000000000000000000000000000000000000000000000000000000000000000000000000000000000000000000000000000000000000000000000000000000000000000000000000000000000000000000000000000000000000000000000000000000000000000000000000000000000000000000000000000000000000000000000000000000000000000000000000000000000000000000000000000000000000000000000000000000000000000000000000000000000000000000000000001", "9999999999999999999999999999999999999999999999999999999999999999999999999999999999999999999999999999999999999999999999999999999999999999999999999999999999999999999999999999999999999999999999999999999999999999999999999999999999999999999999999999999999999999999999999999999999999999999999999999999999999999999999999999999999999999999999999999999999999999999999999999999999999999999999999999999999999999.5 = 1",
 	"a = '\uf001'", "concat('\uf001', \"\uf00f\")", "\uf001", "a\uf001",
 }
 
